@@ -516,11 +516,13 @@ pub fn run(args: &Args, sh: &mut Shard) {
     let n_p = args.scaled(if args.thorough() { 1 << 22 } else { 1 << 18 });
     let mut case = args.shard;
     while case < n_t {
+        crate::rng::reset_case_fp();
         let vs = one_transport_case(case, args.seed, sh);
         sh.evaluations += 1;
+        // distinct by content: fingerprint of every generated value (device, operations, arguments)
         let mut h = Hash64::new();
-        h.u64(case);
-        h.u64(args.seed);
+        h.u64(crate::rng::take_case_fp());
+        h.u64(1);
         sh.nontrivial.insert(h.finish());
         if sh.want_sample() && case < 64 {
             sh.sample(J::obj().with("kind", J::s("transport_operations")).with("case", J::u(case)).with("operations", J::u(60)));
@@ -535,11 +537,12 @@ pub fn run(args: &Args, sh: &mut Shard) {
     }
     let mut case = args.shard;
     while case < n_p {
+        crate::rng::reset_case_fp();
         let vs = one_probe_case(case, args.seed, sh);
         sh.evaluations += 1;
         let mut h = Hash64::new();
-        h.u64(case ^ 0x9999_0000_0000);
-        h.u64(args.seed);
+        h.u64(crate::rng::take_case_fp());
+        h.u64(2);
         sh.nontrivial.insert(h.finish());
         for (rule, d) in vs {
             sh.violation(Violation { prop: "C10".into(), signature: format!("C10/{}", rule), detail: d, replay: J::obj().with("kind", J::s("probe")).with("case", J::u(case)).with("build", J::s(args.build.clone())) });
